@@ -261,7 +261,7 @@ Theorem step_pinv qs s l s' : PInv s -> step qs s l = Some s' -> PInv s'.
 Proof.
   intros HI Hs u. specialize (HI u). unfold pending_cnt in *.
   destruct l; cbn [step] in Hs; inv_step Hs; fin_step Hs s'; st_simpl; st_simpl_all;
-    try exact HI; try (destruct r; st_simpl; exact HI);
+    try exact HI; unfold pstate_of in *;
     aset_facts u;
     repeat match goal with H : aget Idle _ _ = _ |- _ => rewrite H in * end;
     unfold pcount in *; cbn [ptask] in *; rewrite ?cnt_cons, ?cnt_nil in *;
